@@ -111,12 +111,26 @@ def written_verbatim(t, k, s):
     return printcheck.required_class(t, k, s) in ("expr", "not-expr", "regex", "list", "bind")
 
 
+def unescaped(s, quote):
+    """An occurrence of the quote character that is not directly preceded by a backslash (the string terminals read \\<quote> as an
+    escaped quote whatever comes before the backslash, and the printer re-escapes exactly those)."""
+    i = s.find(quote)
+    while i >= 0:
+        if i == 0 or s[i - 1] != "\\":
+            return True
+        i = s.find(quote, i + 1)
+    return False
+
+
 def contains_quote(d, quote):
-    return any(quote in s and not written_verbatim(t, k, s) for t, k, s in string_leaves(d))
+    """Documented exclusion: a quoted value holding an UNESCAPED occurrence of the quote character chosen for output."""
+    return any(unescaped(s, quote) and not written_verbatim(t, k, s) for t, k, s in string_leaves(d))
 
 
 def has_backslash(d):
-    return any("\\" in s for _, _, s in string_leaves(d))
+    """A string ending in a backslash cannot be written as a quoted Mapfile string at all (the closing quote would read as escaped);
+    backslashes elsewhere are ordinary content."""
+    return any(s.endswith("\\") for _, _, s in string_leaves(d))
 
 
 def special_looking_source_strings(text):
